@@ -400,7 +400,7 @@ class P(Property):
     driver_ml = 'C06_driver.ml'
     harness_bin = 'c06'
     rule = ('adversarial scripted peer against the real server and client connection objects over SimQuic, application following the '
-            'documented call pattern (two orders per role): 21 base scenarios x {per-frame, 1-byte, random} delivery x a fault '
+            'documented call pattern (two orders per role): 20 base scenarios x {per-frame, 1-byte, random} delivery x a fault '
             '(FIN, RESET code, STOP_SENDING code, connection close code, idle timeout) inserted at EVERY step index; grammar-directed mutants '
             '(bit flip, insert, delete, truncate, frame duplicate/swap/drop, foreign/forbidden/short/long fixed-field frames, length varints '
             'from {0, L-1, L+1, 2^14.., 2^30.., 2^32-1, 2^32, 2^62-1} in every varint form, hostile QPACK field sections, non-minimal varints, '
@@ -410,9 +410,14 @@ class P(Property):
             'connection close, errors are proper (scope:code:variant, and no self-declared H3_INTERNAL_ERROR unless the transport reported an internal error). '
             'non-trivial = distinct cases in which a decoder below the frame layer was reached (a resolve_request / recv_response / '
             'recv_trailers call completed, or the control stream produced a connection error) or a fault was injected before the last step')
-    partial_note = ('C06 is partial: theorems cover the component models that exist (listed in Properties/C06.v); the remaining receive-path '
-                    'code is covered by the reviewed panic-site inventory and the adversarial search only; panics inside dependencies, '
-                    'allocation failure and stack depth are out of scope')
+    partial_note = ('C06 is partial: theorems cover the component models (varint, datagram header, prefixed integers, Huffman, string literals, '
+                    'stateless QPACK, SETTINGS, Header/Request/Response/trailers construction, Frame::decode, buf.rs Cursor, FrameStream, '
+                    'AcceptRecvStream header reader, and their one-frame composition; progress for FrameStream, the header reader, the '
+                    'connection-error wake-up and single faulted requests).  NOT covered by a theorem, only by the reviewed panic-site inventory '
+                    'and the adversarial search: the glue of connection.rs (RequestStream poll_recv_data / poll_recv_trailers state, '
+                    'ConnectionInner poll_control / poll_accept_recv / grease), server accept loop and client recv_response call order, '
+                    'WebTransport session paths, tokio mpsc, AsyncRead impls.  Panics inside dependencies (http, bytes), allocation failure and '
+                    'stack depth are out of scope')
     trusted_extra = ['Spec/PanicReview.v is a hand-reviewed classification of the generated panic-site inventory (corpus/C06/panic_sites_reviewed.json)',
                      'SimQuic upholds the transport contract (no empty chunks, sticky FIN/RESET); STOP_SENDING is modelled as "the next write fails"',
                      'liveness is observed as "pending at executor quiescence"; the real tokio scheduler is not run']
@@ -484,9 +489,6 @@ class P(Property):
             # the world summary is not printed after a panic: the property verdict (spec_ok) carries the failure
             return 'world=?'
         return 'world=' + (m.group(1) if m else '?')
-
-    def judge_world(self, case, out, model):
-        return True
 
     def spec_ok(self, case, out, spec):
         if spec is None:
